@@ -403,6 +403,14 @@ class HistRunner:
                 m.touch_src(w)
                 self.pending_during.discard(w)
                 self.stats['watched_paths_created_during_the_watching_script'] = self.stats.get('watched_paths_created_during_the_watching_script', 0) + 1
+            else:
+                # the watcher's script did not get that far in the command that was meant to take it (it failed earlier, or was
+                # not started): the offer is withdrawn, so that no later command with several requesters meets it
+                try:
+                    os.unlink(self.path(w) + '.during')
+                except OSError:
+                    pass
+                self.pending_during.discard(w)
         entry['anoms'] = [a['key'] for a in anoms]
         if anoms:
             entry['trace'] = [' '.join(f) for f in recs][-120:]
